@@ -22,3 +22,7 @@ impl TypeMono {
     #[verifier::external_body] pub fn collapse_type_apps(&mut self, t: &Ty) -> (r: Ty)
         ensures r == collapse_of(*t), final(self).monoenv.dyn_impl_tys@ == old(self).monoenv.dyn_impl_tys@ { unimplemented!() }
 }
+
+// `matches!(t, Ty::Variant { .. })`: which variant a type is — nothing is known about it here (in particular not whether collapsing changes the type)
+pub uninterp spec fn shape_is(t: Ty, variant: Seq<char>) -> bool;
+#[verifier::external_body] pub fn ty_has_shape(t: &Ty, variant: &str) -> (r: bool) ensures r == shape_is(*t, variant@) { unimplemented!() }
